@@ -4,7 +4,11 @@ EXTENDS FoResolver
 CONSTANTS MaxEqs,        \* the small-scope family: all sequences of at most MaxEqs equations x = t  (x in a, b, c)
           AllOrders,     \* explore every alphabetical order of the variable names that occur (else one)
           WithSets,      \* also the hand-written systems (sharing, diamonds, nesting, functions, cycles) in every rotation
+          FldEqs,        \* the field-access family: every sequence of at most FldEqs statements over accesses a.F / b.F, witnesses and uses (0: off)
           MergeLen       \* the merge family: every sequence of MergeLen equations x = y over five variables, with z = int before or after (0: off)
+
+\* the record types of the model-checked systems: the user records of FoInfer (IR1, IR3, IBox<T>)
+MCRecField(rt, f) == IF rt[2] \notin DOMAIN RecordFields THEN NOREC ELSE IF HasField(rt, f) THEN FieldType(rt, f) ELSE PANIC
 
 a == V("a")  b == V("b")  c == V("c")  d == V("d")  e == V("e")
 TInt == B("int")  TStr == B("string")
@@ -36,11 +40,13 @@ NR == Len(Rhs)
 NE == 3 * NR
 Eq(k) == <<Atoms[((k - 1) \div NR) + 1], Rhs[((k - 1) % NR) + 1]>>
 
-VARIABLES sys0,     \* the constraint system (one equation per statement)
+VARIABLES obs,      \* the observed types (the parameters) as the passes of InferLfd see them: replaced by their resolved form after each pass
+          npass,    \* passes of InferLfd done
+          sys0,     \* the constraint system (one equation per statement)
           sys,      \* the same with the types of finished statements replaced by their resolved form
           bk,        \* the batch being resolved: 1..Len(sys) = statement bk, Len(sys) + 1 = the whole function, Len(sys) + 2 = finished
           nrounds
-vars == <<rvars, ord, sys0, sys, bk, nrounds, mvars>>
+vars == <<rvars, ord, sys0, sys, bk, nrounds, obs, npass, mvars>>
 
 \* alphabetical orders: every permutation of the first n names (the others keep their place), or the identity
 Perms(n) == IF AllOrders THEN {p \in [1..n -> 1..n] : \A i, j \in 1..n : p[i] = p[j] => i = j} ELSE {[i \in 1..n |-> i]}
@@ -62,48 +68,116 @@ MergeSys(x) ==
   IN IF x % 2 = 0 THEN <<<<Vs[z], TInt>>>> \o m ELSE m \o <<<<Vs[z], TInt>>>>
 NMerge == IF MergeLen = 0 THEN 0 ELSE 10 * Pow10(MergeLen)
 
+\* the field-access family: a, b are (to be) records, c a plain value.  Statements as the pairs of types they unify:
+\*   use of an accessed field with a concrete type / with c       a.F + 1      [a.Val; c]
+\*   fields of a and b meeting in one expression                  [a.F1; b.F2]
+\*   witnesses of the record type                                 [a; {A=1; B="s"}]   [a; {C=3; D="d"}]   [a; iwrap c]   [a; {Val=2; Tag="t"}]
+\*   merge of the two holders, a concrete type for c              [a; b]    c + 1
+Fa(x, f) == <<"fa", x, f>>
+FNames == <<"A", "C", "Val">>
+FldEqSeq ==
+  [i \in 1..6 |-> <<Fa(IF i <= 3 THEN a ELSE b, FNames[((i - 1) % 3) + 1]), TInt>>]
+  \o [i \in 1..9 |-> <<Fa(a, FNames[((i - 1) \div 3) + 1]), Fa(b, FNames[((i - 1) % 3) + 1])>>]
+  \o [i \in 1..8 |-> <<IF i <= 4 THEN a ELSE b,
+                        CASE (i - 1) % 4 = 0 -> <<"named", "IR1", <<>>>> [] (i - 1) % 4 = 1 -> <<"named", "IR3", <<>>>>
+                          [] (i - 1) % 4 = 2 -> <<"named", "IBox", <<c>>>> [] OTHER -> <<"named", "IBox", <<TInt>>>>>>]
+  \o << <<a, b>>, <<Fa(a, "Val"), c>>, <<Fa(b, "Val"), c>>, <<c, TInt>> >>
+  \o << <<a, <<"named", "IBox", <<d>>>>>>, <<b, <<"named", "IBox", <<d>>>>>>, <<d, TInt>>, <<c, d>> >>       \* [a; iwrap d]   d + 1   [c; d]
+NF == Len(FldEqSeq)
+RECURSIVE FPow(_), FDigits(_, _)
+FPow(n) == IF n = 0 THEN 1 ELSE NF * FPow(n - 1)
+FDigits(x, n) == IF n = 0 THEN <<>> ELSE <<FldEqSeq[(x % NF) + 1]>> \o FDigits(x \div NF, n - 1)
+
+Observed == <<a, b, c, d, e>>
 Init ==
   /\ \/ sys0 \in SmallSystems /\ \E p \in Perms(3) : ord = OrderOf(p, 3)
      \/ sys0 \in SetSystems /\ \E p \in Perms(4) : ord = OrderOf(p, 4)
      \/ \E x \in 0..(NMerge - 1) : sys0 = MergeSys(x) /\ ord \in SomeOrders
-  /\ sys = sys0 /\ bk = 1 /\ nrounds = 0
+     \/ \E n \in 1..FldEqs : \E x \in 0..(FPow(n) - 1) : sys0 = FDigits(x, n) /\ \E p \in Perms(3) : ord = OrderOf(p, 3)
+  /\ sys = sys0 /\ bk = 1 /\ nrounds = 0 /\ obs = Observed /\ npass = 0
   /\ RInit(RelsOf(<<sys0[1]>>).rels, RelsOf(<<sys0[1]>>).panic)
   /\ work = {} /\ sub = NoSubst /\ failed = FALSE          \* (the declarative machine of FoInfer is not run here)
 
-\* InferExpr / InferLfd boundary: the finished statement's types are replaced by their resolved form, the next batch is loaded
-EndBatch ==
-  /\ ~rpanic /\ BatchDone /\ bk <= Len(sys) + 1
-  /\ LET nsys == IF bk <= Len(sys)
-                  THEN [sys EXCEPT ![bk] = <<Resolve(eid, sys[bk][1], {}), Resolve(eid, sys[bk][2], {})>>]
-                  ELSE sys
-         bad == bk <= Len(sys) /\ (IsPanic(nsys[bk][1]) \/ IsPanic(nsys[bk][2]))
-         nxt == IF bk < Len(sys) THEN RelsOf(<<sys[bk + 1]>>) ELSE IF bk = Len(sys) /\ ~bad THEN RelsOf(nsys) ELSE [rels |-> <<>>, panic |-> FALSE]
+\* countUnresLfd: distinct unresolved type variables of the definition (parameters and body)
+Unres(s, o) == Cardinality(RVarsSeq(o) \cup UNION {RVars(s[i][1]) \cup RVars(s[i][2]) : i \in 1..Len(s)})
+ResolveSys(s) == [i \in 1..Len(s) |-> <<Resolve(eid, s[i][1], {}), Resolve(eid, s[i][2], {})>>]
+SysPanic(s) == \E i \in 1..Len(s) : IsPanic(s[i][1]) \/ IsPanic(s[i][2])
+
+\* InferExpr boundary: the finished statement's types are replaced by their resolved form, the next batch is loaded;
+\* after the last statement InferLfd takes the relations of the whole definition
+EndStmtBatch ==
+  /\ ~rpanic /\ BatchDone /\ bk <= Len(sys)
+  /\ LET nsys == [sys EXCEPT ![bk] = <<Resolve(eid, sys[bk][1], {}), Resolve(eid, sys[bk][2], {})>>]
+         bad == IsPanic(nsys[bk][1]) \/ IsPanic(nsys[bk][2])
+         nxt == IF bad THEN [rels |-> <<>>, panic |-> FALSE] ELSE IF bk < Len(sys) THEN RelsOf(<<sys[bk + 1]>>) ELSE RelsOf(nsys)
      IN /\ sys' = IF bad THEN sys ELSE nsys
         /\ bk' = bk + 1
+        /\ round' = nxt.rels
+        /\ rpanic' = (bad \/ nxt.panic)
+        /\ UNCHANGED <<eid, produced, ord, sys0, nrounds, obs, npass, mvars>>
+
+\* a pass of InferLfd is finished: resolveLfd replaces every type of the definition; while that resolves more type variables
+\* (a field access became a plain type) the pass is repeated on the replaced definition (fix d9fa44d; at most 10 times)
+EndPass ==
+  /\ ~rpanic /\ BatchDone /\ bk = Len(sys) + 1
+  /\ LET nsys == ResolveSys(sys)
+         nobs == [i \in 1..Len(obs) |-> Resolve(eid, obs[i], {})]
+         bad == SysPanic(nsys) \/ AnyPanic(nobs)
+         again == ~bad /\ "SinglePass" \notin Deviations /\ npass < 10 /\ Unres(nsys, nobs) < Unres(sys, obs)
+         nxt == IF again THEN RelsOf(nsys) ELSE [rels |-> <<>>, panic |-> FALSE]
+     IN /\ sys' = IF bad THEN sys ELSE nsys
+        /\ obs' = IF bad THEN obs ELSE nobs
+        /\ bk' = IF again THEN bk ELSE bk + 1
+        /\ npass' = npass + 1
         /\ round' = nxt.rels
         /\ rpanic' = (bad \/ nxt.panic)
         /\ UNCHANGED <<eid, produced, ord, sys0, nrounds, mvars>>
 
 Next ==
-  \/ UpdateResOne /\ UNCHANGED <<ord, sys0, sys, bk, nrounds, mvars>>
-  \/ NextRound /\ nrounds' = nrounds + 1 /\ UNCHANGED <<ord, sys0, sys, bk, mvars>>
-  \/ EndBatch
+  \/ UpdateResOne /\ UNCHANGED <<ord, sys0, sys, bk, nrounds, obs, npass, mvars>>
+  \/ NextRound /\ nrounds' = nrounds + 1 /\ UNCHANGED <<ord, sys0, sys, bk, obs, npass, mvars>>
+  \/ EndStmtBatch
+  \/ EndPass
 Spec == Init /\ [][Next]_vars /\ WF_vars(Next)
 RDone == rpanic \/ bk = Len(sys) + 2
 
-Observed == <<a, b, c, d, e>>
 Canon(ts) == LET order == Dedup(VarsSeq(ts), {}) IN [i \in 1..Len(ts) |-> Rename(order, ts[i])]
+
+\* the declarative reading of a system: a field access side is a fresh variable plus a deferred field constraint (FoInfer!Solve)
+ElimSide(t, k) == IF t[1] = "fa" THEN [t |-> V("r" \o ToString(k)), c |-> <<<<"fld", t[2], t[3], V("r" \o ToString(k))>>>>] ELSE [t |-> t, c |-> <<>>]
+RECURSIVE ElimSys(_, _)
+ElimSys(s, k) == IF Len(s) = 0 THEN <<>>
+                 ELSE LET l == ElimSide(s[1][1], 2 * k)
+                          r == ElimSide(s[1][2], 2 * k + 1)
+                      IN <<<<l.t, r.t>>>> \o l.c \o r.c \o ElimSys(Tail(s), k + 1)
+RECURSIVE NoFa(_)
+NoFa(t) == CASE t[1] = "fa" -> FALSE
+             [] t[1] \in {"var", "base", "unit", "panic"} -> TRUE
+             [] t[1] = "slice" -> NoFa(t[2])
+             [] t[1] = "tuple" -> \A i \in 1..Len(t[2]) : NoFa(t[2][i])
+             [] t[1] = "func"  -> (\A i \in 1..Len(t[2]) : NoFa(t[2][i])) /\ NoFa(t[3])
+             [] t[1] = "named" -> \A i \in 1..Len(t[3]) : NoFa(t[3][i])
 
 \* a well-typed system never panics, and its resolved types are the principal ones up to renaming of variables
 Agrees ==
   RDone =>
-    LET u == Unify(sys0, NoSubst) IN
+    LET u == Solve(ElimSys(sys0, 1)) IN
     u.ok => /\ ~rpanic
             /\ LET rs == [i \in 1..5 |-> Resolve(eid, Observed[i], {})] IN
                /\ ~AnyPanic(rs)
+               /\ \A i \in 1..5 : NoFa(rs[i])
                /\ Canon(rs) = Canon([i \in 1..5 |-> Apply(u.s, Observed[i])])
-\* an occurs-check failure never resolves silently: it either panics or is reported as an infinite type
 \* (a clash of two concrete types IS accepted silently: the Go compiler reports it)
+\* the known finding fa-class-drops-concrete (DESIGN section 6, #19) as a system of the field family: TLC must find Agrees violated from it
+\*   [a.Val; c]   [b; iwrap c]   [b; imkint 1]   [a; iwrap c]
+FindingSys == << <<Fa(a, "Val"), c>>, <<b, <<"named", "IBox", <<c>>>>>>, <<b, <<"named", "IBox", <<TInt>>>>>>, <<a, <<"named", "IBox", <<c>>>>>> >>
+FindingInit ==
+  /\ sys0 = FindingSys /\ ord = Names
+  /\ sys = sys0 /\ bk = 1 /\ nrounds = 0 /\ obs = Observed /\ npass = 0
+  /\ RInit(RelsOf(<<sys0[1]>>).rels, RelsOf(<<sys0[1]>>).panic)
+  /\ work = {} /\ sub = NoSubst /\ failed = FALSE
+FindingSpec == FindingInit /\ [][Next]_vars
+
 RoundsBounded == nrounds <= 30
 Terminates == <>RDone
 =============================================================================
